@@ -12,7 +12,9 @@ import (
 
 func init() { register("C02", "exploration", checkC02) }
 
-var c02Values = []string{"", "a", "abc", "hello world", "10", "-5", "0", "9223372036854775807", "-9223372036854775808", "3.5", " 7", "007", "1e2", "ab\r\ncd", "\x00\x01", "9223372036854775806", "xyzxyz", "ohmytext", "mynewtext"}
+var c02Values = []string{"", "a", "abc", "hello world", "10", "-5", "0", "9223372036854775807", "-9223372036854775808", "3.5", " 7", "007", "1e2", "ab\r\ncd", "\x00\x01", "9223372036854775806", "xyzxyz", "ohmytext", "mynewtext",
+	// values are bytes, not characters: multi-byte UTF-8 and byte sequences that are not UTF-8 at all
+	"h\xc3\xa9llo w\xc3\xb6rld", "\xe2\x82\xac\xe2\x82\xac", "\xff\xfeab\xc3\xa9z", "\xffab\xc3\xa9", "\xfe\xfdab\xc3"}
 
 func c02Gen(rng *rand.Rand, m *model.Model, keys []string) []string {
 	k := pick(rng, keys)
